@@ -967,6 +967,10 @@ ldb_recover_log_file(ldb_t *db, uint64_t log_number,
          descriptor so that the old file gets removed. */
       *save_manifest = 1;
     }
+  } else if (rc == LDB_OK && !last_log) {
+    /* An older log has been consumed completely, possibly without
+       producing a table: the descriptor must stop naming it. */
+    *save_manifest = 1;
   }
 
   if (mem != NULL) {
